@@ -584,6 +584,7 @@ pub(crate) async fn listen(
 
         info!("try send shutdown to previous instance");
         if supports_shutdown {
+            verif_point!("ctl:shutdown-sent", 0);
             match kvarn_signal::unix::send_to(b"shutdown no-wait".to_vec(), &path)
                 .await
                 .as_deref()
